@@ -3,6 +3,7 @@ package main
 import (
 	"fmt"
 	"go/token"
+	"go/types"
 	"strings"
 
 	"golang.org/x/tools/go/ssa"
@@ -81,7 +82,7 @@ func checkC04(c *Ctx, r *Report) {
 		}
 		ordered := true
 		for i := 1; i < len(members); i++ {
-			if !instrDominates(members[i-1].call, members[i].call) {
+			if !memberBefore(members[i-1], members[i]) {
 				ordered = false
 			}
 		}
@@ -258,7 +259,7 @@ func checkC04(c *Ctx, r *Report) {
 				var whyS []string
 				for _, use := range h.Uses {
 					for _, p := range h.reachingPairs("Typeflag", "Size", use) {
-						cls := typeflagClass(p.A)
+						cls := h.typeflagClass(p.A)
 						if p.B == nil {
 							continue
 						}
@@ -285,8 +286,8 @@ func checkC04(c *Ctx, r *Report) {
 			}
 		}
 	}
-	r.Floor("F10", nh, 15)
-	r.Floor("F10-size", nsz, 12)
+	r.Floor("F10", nh, 10)
+	r.Floor("F10-size", nsz, 8)
 
 	// ---- O4 (shared with C06) and plan rules (shared with C05) ----
 	tmp := newReport("tmp")
@@ -299,7 +300,7 @@ func checkC04(c *Ctx, r *Report) {
 			n++
 		}
 	}
-	r.Floor("O4", n, 15)
+	r.Floor("O4", n, 10)
 	tmp5 := newReport("tmp")
 	checkC05(c, tmp5)
 	n5 := 0
@@ -337,11 +338,16 @@ func checkDebCompression(c *Ctx, r *Report, pk *Packager) {
 		info := newAObj("info")
 		info.Fields["Overridables.Deb.Compression"] = cStr(name)
 		ev.Defaults[c.infoPtrKey()] = info
-		ev.MaxDepth = 0
+		ev.MaxDepth = 2
 		fr := ev.Explore(fn, make([]AV, len(fn.Params)))
 		ctors := map[string]bool{}
 		for _, li := range fr.LiveInstrs() {
-			if call, ok := li.In.(*ssa.Call); ok && li.F == fr {
+			// the switch itself or a helper it was extracted into (a callee
+			// that receives the setting), not the tar/control builders
+			if li.F != fr && !(li.F != nil && valueIsParamCompared(li.F.Fn)) {
+				continue
+			}
+			if call, ok := li.In.(*ssa.Call); ok {
 				if o := calleeObj(call); o != nil {
 					q := qualifiedName(o)
 					if _, isC := closerCtors[q]; isC && !strings.HasPrefix(q, "archive/tar") && !strings.HasPrefix(q, "os.") {
@@ -351,7 +357,8 @@ func checkDebCompression(c *Ctx, r *Report, pk *Packager) {
 			}
 		}
 		// member name: the non-empty string constants assigned in live code
-		// (the name is a named result held in a cell)
+		// (the name is a named result held in a cell), also when the constant
+		// arrives as a helper's result
 		names := map[string]bool{}
 		for _, li := range fr.LiveInstrs() {
 			st, ok := li.In.(*ssa.Store)
@@ -363,6 +370,22 @@ func checkDebCompression(c *Ctx, r *Report, pk *Packager) {
 			}
 			if s := constOrEmpty(st.Val); s != "" {
 				names[s] = true
+			} else if s, ok := avStr(fr.Eval(st.Val)); ok && s != "" {
+				names[s] = true
+			} else if ex, ok := st.Val.(*ssa.Extract); ok {
+				// a helper's result that differs between its error and
+				// success returns: the non-empty constants it can return
+				if call, ok := ex.Tuple.(*ssa.Call); ok {
+					if ch := fr.childFrame(call); ch != nil {
+						for _, rv := range ch.Returns {
+							if ex.Index < len(rv) {
+								if s, ok := avStr(rv[ex.Index]); ok && s != "" {
+									names[s] = true
+								}
+							}
+						}
+					}
+				}
 			}
 		}
 		w := want[name]
@@ -558,4 +581,15 @@ func checkAPKStructure(c *Ctx, r *Report) {
 		}
 		r.Check(ok, "O3", "apk: .PKGINFO is the first entry of the control segment", c.pos(fn.Pos()), fmt.Sprintf("%d other entries written, each after .PKGINFO", len(others)))
 	}
+}
+
+// valueIsParamCompared: the function compares one of its string parameters
+// against constants (a setting's switch extracted into a helper).
+func valueIsParamCompared(fn *ssa.Function) bool {
+	for _, p := range fn.Params {
+		if b, ok := p.Type().Underlying().(*types.Basic); ok && b.Info()&types.IsString != 0 && valueComparedToConst(p, 2) {
+			return true
+		}
+	}
+	return false
 }
